@@ -704,6 +704,15 @@ def do_solve(m, span, spec, op, endo, check, exo, ctx, step):
     neutralise_callbacks(op.get('plan'), snap, post, ctx, tn)
     for what_, res_ in ctl.callbacks:
         ctx.fault('callback-into-library') if res_ == 'ok' else ctx.fault('callback-into-library-raised')
+        expected_ = {'copy': 'ok', 'deepcopy': 'ok', 'export': 'ok', 'iter': 'ok', 'rebind': 'ok', 'forward': 'ok', 'nested_solve': 'ok', 'add_variable': 'ok', 'label': 'ok'}
+        if what_ in expected_ and spec['span']['type'] not in ('list_dup', 'list_dup_inner', 'np_dup'):
+            # what user code meets when it calls back into the library half-way through a solve: a copy can be taken and
+            # solved, another period solved, the model exported ... exactly as between two solves
+            ok_cb = res_ == expected_[what_]
+            for tag_ in ('C02', 'C06'):
+                ctx.check(tag_, 'callback/' + what_ + '-fails-inside-a-solve', ok_cb, {'result': res_})
+            if what_ == 'copy':
+                ctx.check('C11', 'copy-taken-and-solved-inside-a-hook/fails', ok_cb, {'result': res_})
         if what_ == 'label_probe':
             # (C10: label access addresses the labelled periods - also from inside a hook, whatever is being solved)
             ctx.check('C10', 'label-access-from-inside-a-hook', not res_.startswith('MISMATCH'), {'result': res_, 't': t, 'span': spec['span']['type'], 'entry': op['op']})
